@@ -909,52 +909,55 @@ def part_b(ck, S, g, exe_rel, exe_fuzz):
   for ctx in g.ctx_list:
     if ctx is g.root:
       continue
-    doc = g.new_doc(sweep_rng)
-    node = g.graft(sweep_rng, doc, ctx, dense=False, minimal=True)
-    added = []
-    for _ in range(8):      # complete the attributes the reader insists on, recording each as a finding
-      xml = doc.render()
-      rb = run(xml, parse_only=True)
-      nsweep += 1
-      labels = ['b0:minimal']
-      if handle_common(S, rb, xml, 'schema-doc/minimal'):
-        break
-      msg = conforming_verdict(doc, rb, xml, labels, 'minimal instance of ' + ctx.key)
-      ck.case(nontrivial=False, labels=labels)
-      m = re.search(r"required attribute missing: '(\w+)'", msg or '')
-      if not m:
-        break
-      tgt = [n for n in doc.root.walk() if n.ctx is not None and m.group(1) in n.ctx.attr and not n.has(m.group(1))
-             and n.tag == norm_msg(rb.perr)[1]]
-      if not tgt:
-        break
-      g._add_attr(sweep_rng, tgt[0], m.group(1), doc)
-      added.append(m.group(1))
-    if rb.died or rb.parse != 1:
-      continue
-    for a in ctx.attrs:
-      if node.has(a.name):
-        continue
-      d2, memo = doc.clone()
-      n2 = memo[id(node)]
-      v = g.value(sweep_rng, ctx, a, d2)
-      if v is None:
-        continue
-      if a.type in ('double', 'float') and not any(f in a.facets for f in ('min', 'max', 'positive')):
-        toks = v.split()
-        toks[-1] = '0.5'
-        v = ' '.join(toks)
-      n2.set(a.name, v)
-      if not g.repair(sweep_rng, n2, d2) or g.doc_errors(d2):
-        continue
-      xml = d2.render()
-      r1 = run(xml, parse_only=True)
-      nsweep += 1
-      labels = ['b0:one-attribute']
-      if handle_common(S, r1, xml, 'schema-doc/one-attribute'):
-        continue
-      conforming_verdict(d2, r1, xml, labels, 'attribute %s added to a minimal %s' % (a.name, ctx.key))
-      ck.case(nontrivial=False, labels=labels)
+    for mode in ('pure', 'recipe'):     # required attributes only; then with the semantic hints of gen_schema.RECIPES
+      doc = g.new_doc(sweep_rng)
+      node = g.graft(sweep_rng, doc, ctx, dense=False, minimal=mode)
+      if g.doc_errors(doc):
+        raise RuntimeError('gen_schema: minimal instance of %s is not conforming: %s' % (ctx.key, g.doc_errors(doc)))
+      added = []
+     for _ in range(8):      # complete the attributes the reader insists on, recording each as a finding
+       xml = doc.render()
+       rb = run(xml, parse_only=True)
+       nsweep += 1
+       labels = ['b0:minimal']
+       if handle_common(S, rb, xml, 'schema-doc/minimal'):
+         break
+       msg = conforming_verdict(doc, rb, xml, labels, 'minimal instance of ' + ctx.key)
+       ck.case(nontrivial=False, labels=labels)
+       m = re.search(r"required attribute missing: '(\w+)'", msg or '')
+       if not m:
+         break
+       tgt = [n for n in doc.root.walk() if n.ctx is not None and m.group(1) in n.ctx.attr and not n.has(m.group(1))
+              and n.tag == norm_msg(rb.perr)[1]]
+       if not tgt:
+         break
+       g._add_attr(sweep_rng, tgt[0], m.group(1), doc)
+       added.append(m.group(1))
+     if rb.died or rb.parse != 1:
+       continue
+     for a in ctx.attrs:
+       if node.has(a.name):
+         continue
+       d2, memo = doc.clone()
+       n2 = memo[id(node)]
+       v = g.value(sweep_rng, ctx, a, d2)
+       if v is None:
+         continue
+       if a.type in ('double', 'float') and not any(f in a.facets for f in ('min', 'max', 'positive')):
+         toks = v.split()
+         toks[-1] = '0.5'
+         v = ' '.join(toks)
+       n2.set(a.name, v)
+       if not g.repair(sweep_rng, n2, d2) or g.doc_errors(d2):
+         continue
+       xml = d2.render()
+       r1 = run(xml, parse_only=True)
+       nsweep += 1
+       labels = ['b0:one-attribute']
+       if handle_common(S, r1, xml, 'schema-doc/one-attribute'):
+         continue
+       conforming_verdict(d2, r1, xml, labels, 'attribute %s added to a minimal %s' % (a.name, ctx.key))
+       ck.case(nontrivial=False, labels=labels)
   stats['b0_documents'] = nsweep
 
   # ---- order of violation tests: every site of the small kinds once, then samples of the big kinds
